@@ -688,7 +688,39 @@ func (f *FS) mkdirTemp(dir, pattern string) (string, error) {
 	return p, nil
 }
 
+// createTemp: os.CreateTemp on the model (deterministic names, like mkdirTemp).
+func (f *FS) createTemp(dir, pattern string) (*os.File, error) {
+	if dir == "" {
+		dir = f.Root
+	}
+	f.tmpN++
+	name := pattern + "tmp" + K(f.tmpN)
+	if strings.Contains(pattern, "*") {
+		name = strings.Replace(pattern, "*", "tmp"+K(f.tmpN), 1)
+	}
+	return f.openFile(filepath.Join(dir, name), os.O_RDWR|os.O_CREATE|os.O_EXCL, 0o600)
+}
+
+// glob: filepath.Glob for patterns whose directory part has no metacharacters.
+func (f *FS) glob(pattern string) ([]string, error) {
+	dir, file := filepath.Split(pattern)
+	dir = filepath.Clean(dir)
+	if _, err := filepath.Match(file, ""); err != nil {
+		return nil, err
+	}
+	var out []string
+	for _, n := range f.children(dir) {
+		if ok, _ := filepath.Match(file, filepath.Base(n.path)); ok {
+			out = append(out, n.path)
+		}
+	}
+	sort.Strings(out)
+	return out, nil
+}
+
 func (f *FS) install() {
+	Redirect("os.CreateTemp", f.createTemp)
+	Redirect("path/filepath.Glob", f.glob)
 	Redirect("os.OpenFile", f.openFile)
 	Redirect("os.Open", func(name string) (*os.File, error) { return f.openFile(name, os.O_RDONLY, 0) })
 	Redirect("os.Create", func(name string) (*os.File, error) {
